@@ -35,6 +35,7 @@ class ConcH:
         self.pi = math.pi
         self.j = 1j
         self.nan = float('nan')
+        self.inf = float('inf')
         self.assumptions = []
 
     # -- inputs -------------------------------------------------------------------------------
@@ -156,7 +157,7 @@ class ConcH:
             b = np.array(b, dtype=complex if (b.dtype.kind == 'c' or a.dtype.kind == 'c') else float, copy=True)
             flat = b.reshape(-1)
             for i in range(flat.size):
-                if not np.isnan(flat[i]):
+                if np.isfinite(flat[i]):
                     flat[i] = flat[i] + 1
                     break
         if a.shape != b.shape:
@@ -165,7 +166,7 @@ class ConcH:
             except ValueError:
                 self._rec(label, 'eq', False, list(a.shape), list(b.shape), 'shape mismatch')
                 return
-        nan_a, nan_b = np.isnan(a), np.isnan(b)
+        nan_a, nan_b = ~np.isfinite(a), ~np.isfinite(b)
         if (nan_a != nan_b).any():
             self._rec(label, 'eq', False, a, b, 'NaN pattern differs')
             return
